@@ -32,7 +32,7 @@ def bearings(tier, seed):
     b = []
     for ax in (0.0, 90.0, 180.0, 270.0, 360.0):
         b += [ax, ax + 1e-9, ax - 1e-9]
-    b += fill(0.0, 359.0, 15.0 if tier == 'quick' else 5.0, seed, 61)
+    b += fill(0.0, 359.0, 5.0 if tier == 'quick' else 1.0, seed, 61)
     return uniq([x for x in b if 0.0 <= x < 360.0])
 
 
@@ -104,7 +104,7 @@ HTS = [-5.0, 0.0, 5.0, 1.6]
 
 
 def gen_va(tier, seed):
-    zs = uniq(ZEN + fill(3.0, 357.0, 29.0 if tier == 'quick' else 7.0, seed, 62))
+    zs = uniq(ZEN + fill(3.0, 357.0, 7.0 if tier == 'quick' else 1.0, seed, 62))
     for z in zs:
         if z % 180.0 == 0.0:
             continue
@@ -152,7 +152,7 @@ NREF = 1.000281781
 
 
 def gen_atm(tier, seed):
-    ts = TEMP if tier == 'quick' else uniq(TEMP + fill(-20.0, 45.0, 6.5, seed, 63))
+    ts = uniq(TEMP + fill(-20.0, 45.0, 13.0 if tier == 'quick' else 3.25, seed, 63))
     for w in WAVE:
         for t in ts:
             yield {'wave': w, 'temp': t}
